@@ -207,8 +207,9 @@ def leg_typed_aggregates(ns, res, spec):
     for n in range(spec['n']):
         front = ['pandas', 'sqlite', 'csv'][n % 3]
         nrows = rng.choice([1, 2, 3, 5, 8, 17, 18, 33, 40])
-        keykind = rng.choice(['str', 'int'])
-        keys = [rng.choice(['a', 'b', 'ab', 'B']) if keykind == 'str' else rng.choice([1, 2, 10, 2 ** 53 + 1]) for _ in range(nrows)]
+        keykind = rng.choice(['str', 'int', 'num-mixed'])
+        # num-mixed: integers and floats in one key column (an untyped sqlite column, an object column): ascending order is numeric order
+        keys = [rng.choice(['a', 'b', 'ab', 'B']) if keykind == 'str' else (rng.choice([1, 2, 10, 2 ** 53 + 1]) if keykind == 'int' else rng.choice([1, 2.5, 0.5, 3, -4, 10, 7.25])) for _ in range(nrows)]
         ipool = rng.choice([[1, 2, 3, 10, 7], [2 ** 53 + 1, 2 ** 53 + 3, 5, 2 ** 60], [0, -4, 9, 100]])
         ints = [rng.choice(ipool) for _ in range(nrows)]
         flts = [rng.choice([0.25, 0.5, 1.0, 2.75, -1.5, 10.0, 3.0]) for _ in range(nrows)]
@@ -230,12 +231,12 @@ def leg_typed_aggregates(ns, res, spec):
             exp.append([k, len(g), min(xs), max(xs), sum(xs), float(mean), float(med), float(sum((x - mean) ** 2 for x in fs) / len(fs)), list(xs), xs])
         qtext = 'select a1, COUNT(*), MIN(a2), MAX(a2), SUM(a2), AVG(a3), MEDIAN(a3), VARIANCE(a3), ARRAY_AGG(a2), ANY_VALUE(a2)%s group by a1' % (' where ' + where if where else '')
         if front == 'pandas':
-            df = pd.DataFrame({'k': pd.Series(keys, dtype='object' if keykind == 'str' else 'int64'), 'n': pd.Series(ints, dtype='int64'), 'x': pd.Series(flts, dtype='float64')})
+            df = pd.DataFrame({'k': pd.Series(keys, dtype='int64' if keykind == 'int' else 'object'), 'n': pd.Series(ints, dtype='int64'), 'x': pd.Series(flts, dtype='float64')})
             it = ns.pandas.DataframeIterator(df, normalize_column_names=True)
             conn = None
         elif front == 'sqlite':
             conn = sqlite3.connect(':memory:')
-            conn.execute('CREATE TABLE t (k %s, n INTEGER, x REAL)' % ('TEXT' if keykind == 'str' else 'INTEGER'))
+            conn.execute('CREATE TABLE t (k %s, n INTEGER, x REAL)' % {'str': 'TEXT', 'int': 'INTEGER', 'num-mixed': ''}[keykind])
             conn.executemany('INSERT INTO t VALUES (?, ?, ?)', rows)
             conn.commit()
             it = ns.sqlite.SqliteRecordIterator(conn, 't')
@@ -322,7 +323,7 @@ def run_shard(spec, res):
 def summarize(tier, seed, m):
     aggs = {k[4:]: v for k, v in m['counters'].items() if k.startswith('agg:')}
     return {
-        'rule': 'aggregate queries with 1-5 aggregates out of COUNT(*|1|x), MIN, MAX, SUM, AVG, VARIANCE, MEDIAN, ARRAY_AGG, ANY_VALUE in upper / lower / capitalised spellings (expression arguments in the Python leg), group keys and constants as plain columns, no GROUP BY / one key / two keys / NR %% k / len(key), optional WHERE and TOP/LIMIT, over tables of 0-40 rows with int, float, mixed int->float, zero-heavy and negative numeric strings, native int / float cells, and integers beyond 2**53 (Python leg only); one case in 16 exercises builtin min/max/sum dispatch in a non-aggregate query; a non-constant plain column is injected in 6%% of the cases and must be rejected with the record number. a typed front-ends leg: one query with all nine aggregates grouped by a string or integer key (optionally filtered) over 1-40 records delivered by a dataframe (int64 / float64 / object), a sqlite table (INTEGER / REAL / TEXT) and a CSV reader (numeric strings), integers up to 2**60 (sums and extrema must stay exact integers), floats in quarters (exact rational reference), groups in ascending key order; distinct_nontrivial = distinct (query, table) with at least one result row.',
+        'rule': 'aggregate queries with 1-5 aggregates out of COUNT(*|1|x), MIN, MAX, SUM, AVG, VARIANCE, MEDIAN, ARRAY_AGG, ANY_VALUE in upper / lower / capitalised spellings (expression arguments in the Python leg), group keys and constants as plain columns, no GROUP BY / one key / two keys / NR %% k / len(key), optional WHERE and TOP/LIMIT, over tables of 0-40 rows with int, float, mixed int->float, zero-heavy and negative numeric strings, native int / float cells, and integers beyond 2**53 (Python leg only); one case in 16 exercises builtin min/max/sum dispatch in a non-aggregate query; a non-constant plain column is injected in 6%% of the cases and must be rejected with the record number. a typed front-ends leg: one query with all nine aggregates grouped by a string, integer or mixed integer / float key (optionally filtered) over 1-40 records delivered by a dataframe (int64 / float64 / object), a sqlite table (INTEGER / REAL / TEXT) and a CSV reader (numeric strings), integers up to 2**60 (sums and extrema must stay exact integers), floats in quarters (exact rational reference), groups in ascending key order; distinct_nontrivial = distinct (query, table) with at least one result row.',
         'required': ['typed_aggregate_runs:pandas', 'typed_aggregate_runs:sqlite', 'typed_aggregate_runs:csv', 'typed_aggregate_groups', 'py_aggregate_cases', 'py_builtin_dispatch_cases', 'groups_checked', 'predicted_errors', 'js_cases'],
         'extra': {'aggregate_spellings_seen': aggs},
         'assumptions': ['numeric tolerance 1e-9 relative for the results every implementation computes in floating point (AVG, VARIANCE, the mean of the two middle values of MEDIAN, SUM / MIN / MAX over floats); the scale is max(1, |result|, largest |operand|) - for VARIANCE the largest squared operand - because that is what bounds a floating-point sum; integer MIN / MAX / SUM / MEDIAN (odd count) / COUNT are compared exactly, also beyond 2**53 (Python leg)', 'plain columns are never None (the engine uses None as its unset sentinel; the quantifier is over numeric columns)'],
